@@ -33,10 +33,10 @@ Theorem C16_unknown_service_is_reported : forall w rt mh hops p f mid back d n,
   beq_bytes (p_fn p) (p_tn p) = false ->
   too_long (p_fs p) || too_long (p_ts p) = false ->
   rt (p_fn p) (p_tn p) = mid ++ [p_tn p] -> transit_ok w mid hops p = true ->
-  find_node w (p_tn p) = Some d -> fw_eval (nd_fw d) (p_ts p) = FwAccept ->
+  find_node w (p_tn p) = Some d -> fw_eval (nd_fw d) p = FwAccept ->
   reserved (p_ts p) = false -> mem (p_ts p) (nd_bound d) = false ->
   rt (p_tn p) (p_fn p) = back ++ [p_fn p] -> transit_ok w back mh (notice_pkt (p_tn p) p) = true ->
-  find_node w (p_fn p) = Some n -> fw_eval (nd_fw n) S_UNREACH = FwAccept ->
+  find_node w (p_fn p) = Some n -> fw_eval (nd_fw n) (notice_pkt (p_tn p) p) = FwAccept ->
   mem (p_fs p) (nd_bound n) = true ->
   send w rt mh hops p f = mkout SNone None false [(p_fn p, p_fs p, notif_of (p_tn p) p PUnknown)].
 Proof. exact unknown_service_is_reported. Qed.
@@ -50,10 +50,10 @@ Theorem C16_closed_while_waiting_is_reported : forall w rt mh hops p mid back d 
   beq_bytes (p_fn p) (p_tn p) = false ->
   too_long (p_fs p) || too_long (p_ts p) = false ->
   rt (p_fn p) (p_tn p) = mid ++ [p_tn p] -> transit_ok w mid hops p = true ->
-  find_node w (p_tn p) = Some d -> fw_eval (nd_fw d) (p_ts p) = FwAccept ->
+  find_node w (p_tn p) = Some d -> fw_eval (nd_fw d) p = FwAccept ->
   reserved (p_ts p) = false -> mem (p_ts p) (nd_bound d) = true ->
   rt (p_tn p) (p_fn p) = back ++ [p_fn p] -> transit_ok w back mh (notice_pkt (p_tn p) p) = true ->
-  find_node w (p_fn p) = Some n -> fw_eval (nd_fw n) S_UNREACH = FwAccept ->
+  find_node w (p_fn p) = Some n -> fw_eval (nd_fw n) (notice_pkt (p_tn p) p) = FwAccept ->
   mem (p_fs p) (nd_bound n) = true ->
   send w rt mh hops p FClosedWaiting
   = mkout SNone None false [(p_fn p, p_fs p, notif_of (p_tn p) p PUnknown)].
@@ -73,7 +73,7 @@ Print Assumptions C16_too_long_name_is_refused.
 Theorem C16_drop_is_silent : forall fixed w rt mh hops p f mid d rest nd,
   too_long (p_fs p) || too_long (p_ts p) = false ->
   rt (p_fn p) (p_tn p) = mid ++ d :: rest -> transit_ok w mid hops p = true ->
-  find_node w d = Some nd -> fw_eval (nd_fw nd) (p_ts p) = FwDrop ->
+  find_node w d = Some nd -> fw_eval (nd_fw nd) p = FwDrop ->
   send_gen fixed w rt mh hops p f = quiet.
 Proof. exact drop_is_silent. Qed.
 Print Assumptions C16_drop_is_silent.
@@ -109,10 +109,10 @@ Theorem C16_dial_to_unbound_service_is_cancelled : forall w rt mh p f mid back d
   beq_bytes (p_fn p) (p_tn p) = false ->
   too_long (p_fs p) || too_long (p_ts p) = false ->
   rt (p_fn p) (p_tn p) = mid ++ [p_tn p] -> transit_ok w mid mh p = true ->
-  find_node w (p_tn p) = Some d -> fw_eval (nd_fw d) (p_ts p) = FwAccept ->
+  find_node w (p_tn p) = Some d -> fw_eval (nd_fw d) p = FwAccept ->
   reserved (p_ts p) = false -> mem (p_ts p) (nd_bound d) = false ->
   rt (p_tn p) (p_fn p) = back ++ [p_fn p] -> transit_ok w back mh (notice_pkt (p_tn p) p) = true ->
-  find_node w (p_fn p) = Some n -> fw_eval (nd_fw n) S_UNREACH = FwAccept ->
+  find_node w (p_fn p) = Some n -> fw_eval (nd_fw n) (notice_pkt (p_tn p) p) = FwAccept ->
   mem (p_fs p) (nd_bound n) = true ->
   dial w rt mh p f = DCancelled.
 Proof. exact dial_to_unbound_service_is_cancelled. Qed.
@@ -122,7 +122,7 @@ Print Assumptions C16_dial_to_unbound_service_is_cancelled.
 Theorem C16_dropped_dial_is_not_cancelled : forall w rt mh p f mid d rest nd,
   too_long (p_fs p) || too_long (p_ts p) = false ->
   rt (p_fn p) (p_tn p) = mid ++ d :: rest -> transit_ok w mid mh p = true ->
-  find_node w d = Some nd -> fw_eval (nd_fw nd) (p_ts p) = FwDrop ->
+  find_node w d = Some nd -> fw_eval (nd_fw nd) p = FwDrop ->
   dial w rt mh p f = DTimesOut.
 Proof. exact dropped_dial_is_not_cancelled. Qed.
 Print Assumptions C16_dropped_dial_is_not_cancelled.
@@ -130,7 +130,7 @@ Print Assumptions C16_dropped_dial_is_not_cancelled.
 (* the hypotheses are satisfiable: three nodes in a line, unrelated sockets on each, a firewall
    rule on the transit node *)
 Example C16_nonvacuous :
-  let w := [mknode (str "a") [str "src"; str "x"] []; mknode (str "m") [str "y"] [(str "blk", FwDrop)];
+  let w := [mknode (str "a") [str "src"; str "x"] []; mknode (str "m") [str "y"] [mkrule None None None (Some (str "blk")) FwDrop];
             mknode (str "b") [str "z"] []] in
   let rt := line_route [str "a"; str "m"; str "b"] in
   let p := mkpkt (str "a") (str "src") (str "b") (str "tgt") in
